@@ -185,8 +185,9 @@ class PairCase(Case):
           K[flat(sizes, v), u] = P.lift(bias.a[u]) + tot / T
       K = tfc.Tensor(K, tfc.float32)
       x = tfc.sym([1] + ([U] if U > 1 else []) + [D], 'x')
-      a = kl.evaluate_with_hypercube_interpolation(x, sc, bias, w, U, T, L, True)
-      b = ll.evaluate_with_hypercube_interpolation(x, K, U, sizes, True)
+      xin = [x[..., d:d + 1] for d in range(D)] if cfg.get('as_list') else x   # list of per-dimension tensors
+      a = kl.evaluate_with_hypercube_interpolation(xin, sc, bias, w, U, T, L, True)
+      b = ll.evaluate_with_hypercube_interpolation(xin, K, U, sizes, True)
       cl.append(('same-shape', B.const(tuple(a.a.shape) == tuple(b.a.shape))))
       from props.C02 import _rows, _names
       for bidx, xs in _rows(x, D):
@@ -354,6 +355,8 @@ def configs(tier, rng):
   for (L, U, D, T) in [(2, 1, 1, 1), (2, 1, 2, 1), (3, 1, 2, 1), (2, 2, 2, 1), (2, 1, 2, 2), (3, 1, 1, 2), (2, 2, 1, 2)] + (
       [(3, 2, 2, 2), (2, 1, 3, 2)] if tier == 'thorough' else []):
     jobs.append(('pair', dict(pair='kfl_vs_lattice', L=L, units=U, dims=D, terms=T)))
+    if D > 1:
+      jobs.append(('pair', dict(pair='kfl_vs_lattice', L=L, units=U, dims=D, terms=T, as_list=True)))
   for kw in C15.cdf_configs(tier):
     if kw['reduction'] in ('mean', 'none'):
       jobs.append(('pair', dict(pair='cdf_fn_vs_layer', kw=kw)))
